@@ -1,5 +1,337 @@
 import NibabelModel.Model.C12
-/-! Props/C12 — the property theorems for C12 (statements + proofs; helper lemmas live in Lemmas/). -/
+import NibabelModel.Generated.C12FileTypes
+import NibabelModel.Lemmas.C12_Routes
+/-! Props/C12 — property theorems for C12 (all serialisation routes and accepted file names are
+    equivalent).  Strings are lists of character codes; `stem` is ARBITRARY everywhere (any bytes:
+    dots, spaces, `/`), `e'` is any case mix of a member's extension (`lower e' = lower e`), `z'` any
+    case mix of one of the class's compression suffixes or empty (`SfxSpelling`).  The facts about the
+    class table are proved by `decide` over the table REGENERATED from the working tree. -/
 namespace Nb.C12
+open Nb.C12.Gen
+
+/-! ## facts about the regenerated table (finite, by `decide`) -/
+
+/-- every class's extension/suffix table is well-formed (dotted, case-insensitively distinct) -/
+theorem table_wf : ∀ r ∈ classTable, WF r.filesTypes r.suffixes := by decide
+
+/-- only the base `filespec_to_file_map`, MGH's `.mgz` override, or (for read-only AFNI) another one -/
+theorem table_rw_modelled : ∀ r ∈ classTable, r.rw = true → r.fmKind ≤ 1 := by decide
+
+/-- `.mgz` is not a member extension or compression suffix of the class with the `.mgz` override -/
+theorem table_mgz_fresh : ∀ r ∈ classTable, r.fmKind = 1 →
+    (∀ t ∈ r.filesTypes, t.2.map lower ≠ some mgzExt) ∧ (∀ s ∈ r.suffixes, lower s ≠ mgzExt) := by decide
+
+/-- member extensions are spelled in lower case in the table -/
+theorem table_exts_lower : ∀ r ∈ classTable, ∀ t ∈ r.filesTypes, t.2.all (fun x => x = lower x) = true := by decide
+
+/-- `valid_exts` entries are dotted, lower case and differ from every compression suffix -/
+theorem table_valid_exts : ∀ r ∈ classTable, ∀ v ∈ r.validExts,
+    dotted v = true ∧ v = lower v ∧ ∀ s ∈ r.suffixes, lower s ≠ lower v := by decide
+
+/-- for a writable class every member extension except SPM's `.mat` side-car is in `valid_exts` -/
+theorem table_members_loadable : ∀ r ∈ classTable, r.rw = true → ∀ t ∈ r.filesTypes,
+    t.2 = some [46, 109, 97, 116] ∨ t.2.all (fun e => r.validExts.contains (lower e)) = true := by decide
+
+/-- every compression suffix of a writable class has an opener (else `<name>.sfx` would be written
+    uncompressed), no member extension has one, and opener keys are non-empty -/
+theorem table_codecs : (∀ r ∈ classTable, r.rw = true →
+      (∀ s ∈ r.suffixes, codecOfExt openerKeys s ≠ 0) ∧
+      (∀ t ∈ r.filesTypes, t.2.all (fun e => codecOfExt openerKeys e = 0) = true)) ∧
+    (∀ k ∈ openerKeys, k.1 ≠ []) ∧ compressExtIcase = true ∧ codecOfExt openerKeys mgzExt = 1 := by decide
+
+/-- serialisable classes are single-file classes with an extension -/
+theorem table_serial_single' : ∀ r ∈ classTable, r.serial = true →
+    r.filesTypes.length = 1 ∧ r.filesTypes.all (·.2.isSome) = true := by decide
+
+theorem table_serial_single : ∀ r ∈ classTable, r.serial = true → ∃ nm e, r.filesTypes = [(nm, some e)] := by
+  intro r hr hs
+  obtain ⟨h1, h2⟩ := table_serial_single' r hr hs
+  match hft : r.filesTypes, h1, h2 with
+  | [(nm, some e)], _, _ => exact ⟨nm, e, rfl⟩
+  | [(nm, none)], _, h2 => simp at h2
+
+/-! ## named_file_is_written -/
+
+/-- Generic form: for a well-formed extension table and ANY stem, naming member `nm` by any case mix of
+    its extension and of a compression suffix gives a file map whose entries are
+    `stem ++ <member extension> ++ <suffix as given>`; the named member's extension is the given one. -/
+theorem named_file_is_written_generic (r : ClassRow) (wf : WF r.filesTypes r.suffixes) (hk : r.fmKind ≤ 1)
+    (hmgz : r.fmKind = 1 → (∀ t ∈ r.filesTypes, t.2.map lower ≠ some mgzExt) ∧ (∀ s ∈ r.suffixes, lower s ≠ mgzExt))
+    {nm e : Str} (hm : (nm, some e) ∈ r.filesTypes) (stem e' z' : Str)
+    (he : lower e' = lower e) (hz : SfxSpelling r.suffixes z') :
+    ∃ m, filespecToFileMap r (stem ++ e' ++ z') = some (.ok m) ∧
+      m = r.filesTypes.map (fun t => (t.1, stem ++ memberExt nm e' t ++ z')) ∧
+      m.lookup nm = some (stem ++ e' ++ z') := by
+  refine ⟨_, ?_, rfl, lookup_named r.filesTypes nm e stem e' z' hm⟩
+  have hbase := typesFilenames_accepted wf hm stem e' z' he hz
+  unfold filespecToFileMap
+  by_cases h0 : r.fmKind = 0
+  · rw [if_pos h0, hbase]
+  · have h1 : r.fmKind = 1 := by omega
+    obtain ⟨hme, hms⟩ := hmgz h1
+    have hd' : dotted e' = true := dotted_of_lower_eq he (wf.extDotted hm)
+    have hne : lower (splitext (stem ++ e' ++ z')).2 ≠ mgzExt := by
+      by_cases hz0 : z' = []
+      · subst hz0
+        rw [List.append_nil]
+        rcases splitext_dotted_snd stem e' hd' with h | h <;> rw [h]
+        · rw [he]; intro h'; exact hme _ hm (by simp [h'])
+        · decide
+      · rcases hz with h | ⟨z, hzS, hzl⟩
+        · exact absurd h hz0
+        · rcases splitext_dotted_snd (stem ++ e') z' (dotted_of_lower_eq hzl (wf.sfxDotted hzS)) with h | h <;> rw [h]
+          · rw [hzl]; exact hms z hzS
+          · decide
+    rw [if_neg h0, if_pos h1, if_neg hne, hbase]
+
+/-- **named_file_is_written** — for every class of `all_image_classes` whose `filespec_to_file_map` is
+    modelled (all writable ones), every member, every case mix of extension and compression suffix,
+    every stem: the file map's entry for the named member is EXACTLY the given name; every other
+    member's file is `stem ++ ext ++ suffix` with the same stem and the suffix exactly as given. -/
+theorem named_file_is_written : ∀ r ∈ classTable, r.fmKind ≤ 1 →
+    ∀ nm e, (nm, some e) ∈ r.filesTypes → ∀ stem e' z' : Str, lower e' = lower e → SfxSpelling r.suffixes z' →
+    ∃ m, filespecToFileMap r (stem ++ e' ++ z') = some (.ok m) ∧
+      m.lookup nm = some (stem ++ e' ++ z') ∧
+      ∀ k f, (k, f) ∈ m → ∃ x, f = stem ++ x ++ z' ∧ ∃ t ∈ r.filesTypes, t.1 = k ∧ x = memberExt nm e' t := by
+  intro r hr hk nm e hm stem e' z' he hz
+  obtain ⟨m, h1, h2, h3⟩ := named_file_is_written_generic r (table_wf r hr) hk (table_mgz_fresh r hr) hm stem e' z' he hz
+  refine ⟨m, h1, h3, ?_⟩
+  intro k f hkf
+  rw [h2, List.mem_map] at hkf
+  obtain ⟨t, ht, heq⟩ := hkf
+  simp only [Prod.mk.injEq] at heq
+  exact ⟨memberExt nm e' t, heq.2.symm, t, ht, heq.1, rfl⟩
+
+-- non-vacuity: Nifti1Pair named by its header as `a b/f.HdR.Gz`
+example : filespecToFileMap rowNifti1Pair ([97, 32, 98, 47, 102] ++ [46, 72, 100, 82] ++ [46, 71, 122])
+    = some (.ok [([105, 109, 97, 103, 101], [97, 32, 98, 47, 102] ++ [46, 105, 109, 103] ++ [46, 71, 122]),
+                 ([104, 101, 97, 100, 101, 114], [97, 32, 98, 47, 102] ++ [46, 72, 100, 82] ++ [46, 71, 122])]) := by
+  decide
+example : rowNifti1Pair ∈ classTable ∧ rowNifti1Pair.fmKind ≤ 1 ∧
+    ([104, 101, 97, 100, 101, 114], some [46, 104, 100, 114]) ∈ rowNifti1Pair.filesTypes ∧
+    lower [46, 72, 100, 82] = lower [46, 104, 100, 114] ∧ SfxSpelling rowNifti1Pair.suffixes [46, 71, 122] := by
+  refine ⟨by decide, by decide, by decide, by decide, Or.inr ⟨[46, 103, 122], by decide, by decide⟩⟩
+
+/-- MGH's `.mgz` (any case): when the stem's last component is not empty/all dots, the file map is
+    exactly `{image: given name}`.  (For a dot-file name such as `.mgz` `os.path.splitext` sees no
+    extension and the name is treated as a bare root: `.mgz.mgh` — see the `example` below.) -/
+theorem mgz_named_file_is_written : ∀ r ∈ classTable, r.fmKind = 1 → ∀ stem e' : Str,
+    goodStem stem = true → lower e' = mgzExt →
+    filespecToFileMap r (stem ++ e') = some (.ok [((r.filesTypes.head?.map (·.1)).getD [], stem ++ e')]) := by
+  intro r _ hk stem e' hg he
+  have hd' : dotted e' = true := dotted_of_lower_eq (b := mgzExt) (by rw [he]; decide) (by decide)
+  simp [filespecToFileMap, hk, splitext_dotted stem e' hd', hg, he]
+
+example : filespecToFileMap rowMGHImage [46, 109, 103, 122]
+    = some (.ok [([105, 109, 97, 103, 101], [46, 109, 103, 122, 46, 109, 103, 104])]) := by decide
+example : goodStem [100, 47, 113] = true ∧ lower [46, 77, 103, 90] = mgzExt := by decide
+
+/-- The pinned (pre-fix) `types_filenames` rewrote a mixed-case name: `f.Nii.gz ↦ f.nii.gz`, so the
+    file the user named was not written (and loading it failed). -/
+theorem orig_mixed_case_counterexample :
+    typesFilenamesOrig [102, 46, 78, 105, 105, 46, 103, 122] rowNifti1Image.filesTypes rowNifti1Image.suffixes
+      = .ok [([105, 109, 97, 103, 101], [102, 46, 110, 105, 105, 46, 103, 122])] ∧
+    typesFilenames [102, 46, 78, 105, 105, 46, 103, 122] rowNifti1Image.filesTypes rowNifti1Image.suffixes
+      = .ok [([105, 109, 97, 103, 101], [102, 46, 78, 105, 105, 46, 103, 122])] := by decide
+
+/-! ## sibling_case_rule -/
+
+/-- the sibling's extension: all-upper given extension ⇒ upper-cased, otherwise lower case (the table's
+    spelling), for every class in the table -/
+theorem sibling_case_rule : ∀ r ∈ classTable, ∀ nm n2 e2 e', (n2, some e2) ∈ r.filesTypes → n2 ≠ nm → e' ≠ [] →
+    memberExt nm e' (n2, some e2) = (if e' = upper e' then upper e2 else lower e2) ∧
+    lower (memberExt nm e' (n2, some e2)) = lower e2 := by
+  intro r hr nm n2 e2 e' h2 hne he'
+  have hl : e2 = lower e2 := by simpa using table_exts_lower r hr _ h2
+  have he'' : e'.isEmpty = false := by simpa using he'
+  simp only [memberExt, if_neg hne, procExt, he'', Bool.false_eq_true, if_false]
+  split
+  · exact ⟨rfl, lower_upper e2⟩
+  · split
+    · exact ⟨rfl, lower_lower e2⟩
+    · exact ⟨hl, rfl⟩
+
+example : memberExt [104] [46, 72, 68, 82] ([105], some [46, 105, 109, 103]) = [46, 73, 77, 71] ∧
+          memberExt [104] [46, 72, 100, 82] ([105], some [46, 105, 109, 103]) = [46, 105, 109, 103] := by decide
+
+/-- member names are distinct; every member extension contains a letter -/
+theorem table_names_letters : ∀ r ∈ classTable, (r.filesTypes.map (·.1)).Nodup ∧
+    ∀ t ∈ r.filesTypes, t.2.all (fun x => decide (lower x ≠ upper x)) = true := by decide
+
+/-- **sibling_name_same_files** — when the given extension is all-upper or all-lower, naming ANY sibling
+    the save produced yields the same file map: generic load through any written name finds all files. -/
+theorem sibling_name_same_files : ∀ r ∈ classTable, ∀ nm e n2 e2, (nm, some e) ∈ r.filesTypes →
+    (n2, some e2) ∈ r.filesTypes → n2 ≠ nm → ∀ stem e' z' : Str, lower e' = lower e →
+    (e' = upper e' ∨ e' = lower e') → SfxSpelling r.suffixes z' →
+    typesFilenames (stem ++ memberExt nm e' (n2, some e2) ++ z') r.filesTypes r.suffixes
+      = typesFilenames (stem ++ e' ++ z') r.filesTypes r.suffixes := by
+  intro r hr nm e n2 e2 hm h2 hne stem e' z' he hcase hz
+  have wf := table_wf r hr
+  obtain ⟨hnd, hlet⟩ := table_names_letters r hr
+  have he'ne : e' ≠ [] := dotted_ne_nil (dotted_of_lower_eq he (wf.extDotted hm))
+  obtain ⟨hs, hsl⟩ := sibling_case_rule r hr nm n2 e2 e' h2 hne he'ne
+  rw [typesFilenames_accepted wf h2 stem _ z' hsl hz, typesFilenames_accepted wf hm stem e' z' he hz]
+  congr 1
+  apply List.map_congr_left
+  intro t ht
+  have hl2 : e2 = lower e2 := by simpa using table_exts_lower r hr _ h2
+  have hl : e = lower e := by simpa using table_exts_lower r hr _ hm
+  have hlet2 : lower e2 ≠ upper e2 := by simpa using hlet _ h2
+  have hs2ne : e2 ≠ [] := dotted_ne_nil (wf.extDotted h2)
+  -- the sibling's extension and what the case rule does when IT is the given extension
+  have key : ∀ x : Str, procExt (memberExt nm e' (n2, some e2)) x = procExt e' x ∧
+      procExt (memberExt nm e' (n2, some e2)) e = e' := by
+    intro x
+    rw [hs]
+    by_cases hu : e' = upper e'
+    · rw [if_pos hu]
+      have hune : upper e2 ≠ [] := by simpa [upper] using hs2ne
+      have huu : upper e2 = upper (upper e2) := (upper_upper e2).symm
+      refine ⟨by rw [procExt_upper hune huu, procExt_upper he'ne hu], ?_⟩
+      rw [procExt_upper hune huu, hu, ← upper_lower e', he, upper_lower]
+    · rw [if_neg hu]
+      have hlo : e' = lower e' := by rcases hcase with h | h; exact absurd h hu; exact h
+      have hlne : lower e2 ≠ [] := by simpa [lower] using hs2ne
+      have hnu : lower e2 ≠ upper (lower e2) := by rw [upper_lower]; exact hlet2
+      have hll : lower e2 = lower (lower e2) := (lower_lower e2).symm
+      refine ⟨by rw [procExt_lower hlne hnu hll, procExt_lower he'ne hu hlo], ?_⟩
+      rw [procExt_lower hlne hnu hll, hlo, he]
+  obtain ⟨tn, te⟩ := t
+  simp only [Prod.mk.injEq, true_and]
+  congr 2
+  by_cases h1 : tn = n2
+  · subst h1
+    have : te = some e2 := snd_unique_of_nodup_fst hnd ht h2
+    subst this
+    simp [memberExt, hne]
+  · by_cases h3 : tn = nm
+    · subst h3
+      have : te = some e := snd_unique_of_nodup_fst hnd ht hm
+      subst this
+      simp only [memberExt, if_neg h1, if_true]
+      exact (key e).2
+    · simp only [memberExt, if_neg h1, if_neg h3]
+      cases te with
+      | none => rfl
+      | some x => exact (key x).1
+
+example : memberExt [105, 109, 97, 103, 101] [46, 73, 77, 71] ([104, 101, 97, 100, 101, 114], some [46, 104, 100, 114])
+    = [46, 72, 68, 82] ∧ ([46, 73, 77, 71] : Str) = upper [46, 73, 77, 71] := by decide
+
+/-! ## load_finds_class -/
+
+/-- The extension test of `path_maybe_image` of a class accepts every case mix of every one of its
+    `valid_exts` followed by any case mix of one of its compression suffixes, for every stem. -/
+theorem load_finds_class : ∀ r ∈ classTable, ∀ v ∈ r.validExts, ∀ stem e' z' : Str,
+    lower e' = lower v → SfxSpelling r.suffixes z' → extOK r (stem ++ e' ++ z') = true := by
+  intro r hr v hv stem e' z' he hz
+  obtain ⟨hd, hl, hdis⟩ := table_valid_exts r hr v hv
+  have := splitextAddext_accepted (table_wf r hr).2.1 hd hdis stem e' z' he hz
+  simp only [extOK, this, he, ← hl]
+  simpa using hv
+
+/-- … in particular the class that wrote a name accepts it: every member extension of a writable class
+    (except SPM's `.mat` side-car, which no class loads) is one of its `valid_exts`. -/
+theorem load_finds_writer : ∀ r ∈ classTable, r.rw = true → ∀ nm e, (nm, some e) ∈ r.filesTypes →
+    e ≠ [46, 109, 97, 116] → ∀ stem e' z' : Str, lower e' = lower e → SfxSpelling r.suffixes z' →
+    extOK r (stem ++ e' ++ z') = true := by
+  intro r hr hrw nm e hm hmat stem e' z' he hz
+  have hv : lower e ∈ r.validExts := by
+    rcases table_members_loadable r hr hrw _ hm with h | h
+    · exact absurd (Option.some.inj h) hmat
+    · simpa using h
+  have hl : lower e = lower (lower e) := (lower_lower e).symm
+  exact load_finds_class r hr (lower e) hv stem e' z' (he.trans hl) hz
+
+example : extOK rowSpm2AnalyzeImage ([102, 32] ++ [46, 72, 68, 82] ++ [46, 66, 122, 50]) = true := by decide
+
+/-- The whole `load()` class loop is case-insensitive in the name: two spellings of a name that differ
+    only in case are given to the same class (for the same header-sniff answers). -/
+theorem load_class_case_insensitive (sniffOK : Str → Bool) (n1 n2 : Str) (h : lower n1 = lower n2) :
+    loadClass classTable sniffOK n1 = loadClass classTable sniffOK n2 := by
+  rw [← loadClass_lower classTable sniffOK n1, ← loadClass_lower classTable sniffOK n2, h]
+
+example : lower [102, 46, 78, 73, 105, 46, 71, 90] = lower [102, 46, 110, 105, 105, 46, 103, 122] := by decide
+
+/-! ## codec_same_for_read_and_write -/
+
+/-- Every file of the file map of an accepted name with a compression suffix is opened — for writing
+    and for reading alike, `Opener` has one choice function — with the codec of that suffix, whatever
+    the case; without a suffix every member of a writable class is opened uncompressed. -/
+theorem codec_same_for_read_and_write : ∀ r ∈ classTable, r.rw = true →
+    ∀ nm e, (nm, some e) ∈ r.filesTypes → ∀ stem e' z' : Str, lower e' = lower e →
+    (∀ z ∈ r.suffixes, lower z' = lower z →
+        openerCodec openerKeys compressExtIcase (stem ++ e' ++ z') = codecOfExt openerKeys z ∧
+        codecOfExt openerKeys z ≠ 0) ∧
+    openerCodec openerKeys compressExtIcase (stem ++ e') = 0 := by
+  intro r hr hrw nm e hm stem e' z' he
+  obtain ⟨hcod, hkeys, hic, _⟩ := table_codecs
+  have wf := table_wf r hr
+  have hd := wf.extDotted hm
+  have hd' := dotted_of_lower_eq he hd
+  rw [hic]
+  constructor
+  · intro z hz hzl
+    exact ⟨openerCodec_suffix openerKeys stem e' z' z hd' (wf.sfxDotted hz) hzl, (hcod r hr hrw).1 z hz⟩
+  · have h0 : codecOfExt openerKeys e = 0 := by simpa using (hcod r hr hrw).2 _ hm
+    rcases openerCodec_nosuffix openerKeys stem e' e hd he with h | h
+    · rw [h, h0]
+    · rw [h, codecOfExt_nil_of openerKeys hkeys]
+
+example : openerCodec openerKeys compressExtIcase ([102] ++ [46, 78, 105, 105] ++ [46, 66, 90, 50]) = 2 := by decide
+
+/-- `.mgz` (any case, proper stem) is opened with gzip -/
+theorem mgz_codec (stem e' : Str) (hg : goodStem stem = true) (he : lower e' = mgzExt) :
+    openerCodec openerKeys compressExtIcase (stem ++ e') = 1 := by
+  have hd' : dotted e' = true := dotted_of_lower_eq (b := mgzExt) (by rw [he]; decide) (by decide)
+  obtain ⟨_, _, hic, hm⟩ := table_codecs
+  rw [hic, openerCodec_icase, splitext_dotted stem e' hd', hg]
+  simp only [if_true]
+  rw [codecOfExt_congr openerKeys (b := mgzExt) (by rw [he]; decide), hm]
+
+/-! ## routes_equal -/
+
+/-- For every serialisable class, every accepted name and every payload (`to_file_map`'s bytes): under
+    the codec contract `decomp c (comp c b) = b`,
+    * `to_filename(name)` stores under EXACTLY `name` bytes that decompress (codec chosen from the name)
+      to `to_bytes()`;
+    * `to_bytes()` = the bytes `to_stream` wrote = the payload;
+    * `from_filename(name)` after `to_filename(name)` hands the parser the same bytes as
+      `from_bytes(to_bytes())`. -/
+theorem routes_equal (cd : Codecs) (hcd : ∀ c b, cd.decomp c (cd.comp c b) = b) :
+    ∀ r ∈ classTable, r.serial = true → r.fmKind ≤ 1 → ∀ nm e, (nm, some e) ∈ r.filesTypes →
+    ∀ (stem e' z' : Str) (payload : Bytes) (w : World), lower e' = lower e → SfxSpelling r.suffixes z' →
+    let name := stem ++ e' ++ z'
+    let c := openerCodec openerKeys compressExtIcase name
+    ∃ w', toFilename cd openerKeys compressExtIcase r payload w name = .ok w' ∧
+      (fsRead w'.fs name).map (cd.decomp c) = some payload ∧
+      toBytes cd openerKeys compressExtIcase r payload = .ok payload ∧
+      fromFilename cd openerKeys compressExtIcase r w' name = some payload ∧
+      fromBytes r payload = .ok payload := by
+  intro r hr hser hk nm e hm stem e' z' payload w he hz
+  obtain ⟨nm0, e0, hft⟩ := table_serial_single r hr hser
+  obtain ⟨m, h1, h2, _⟩ := named_file_is_written_generic r (table_wf r hr) hk (table_mgz_fresh r hr) hm stem e' z' he hz
+  have hnm : nm = nm0 := by rw [hft] at hm; simp at hm; exact hm.1
+  have hm' : m = [(nm0, stem ++ e' ++ z')] := by
+    rw [h2, hft]; simp [memberExt, hnm]
+  subst hm'
+  clear h2
+  generalize stem ++ e' ++ z' = name at h1 ⊢
+  refine ⟨writeHolder cd openerKeys compressExtIcase payload w (.file name),
+    by simp only [toFilename, h1], ?_, ?_, ?_, ?_⟩
+  · simp [writeHolder, fsRead, fsWrite, hcd]
+  · simp [toBytes, filemapFromIobase, hft, writeHolder]
+  · simp [fromFilename, h1, readHolder, writeHolder, fsRead, fsWrite, hcd]
+  · simp [fromBytes, filemapFromIobase, hft, readHolder]
+
+example : rowGiftiImage ∈ classTable ∧ rowGiftiImage.serial = true ∧ rowGiftiImage.fmKind ≤ 1 ∧
+    ([105, 109, 97, 103, 101], some [46, 103, 105, 105]) ∈ rowGiftiImage.filesTypes := by decide
+
+/-- multi-file classes have no byte-string form: `_filemap_from_iobase` refuses -/
+theorem multi_file_not_serialisable (cd : Codecs) (r : ClassRow) (h : r.filesTypes.length > 1) (p : Bytes) :
+    toBytes cd openerKeys compressExtIcase r p = .error .notImplemented := by
+  simp [toBytes, filemapFromIobase, h]
+
+example : rowNifti1Pair.filesTypes.length > 1 := by decide
 
 end Nb.C12
